@@ -118,6 +118,8 @@ def check(run, repo, world):
 
     # ---- SetEventFilters ---------------------------------------------------
     m, fn, _ = world.func(SEQ + ".SetEventFilters")
+    from ..normal import scalarise_byte_buffers
+    fn = scalarise_byte_buffers(fn)
     fn = normalise(fn, world, SEQ, primitives=("check_bad_rsp",),
                    aliases="params")
     F = SEQ + ".SetEventFilters"
@@ -129,6 +131,7 @@ def check(run, repo, world):
 
     # ---- QueryEventFilters -------------------------------------------------
     m, fn, _ = world.func(SEQ + ".QueryEventFilters")
+    fn = scalarise_byte_buffers(fn)
     fn = normalise(fn, world, SEQ, primitives=("check_bad_rsp",),
                    aliases="params")
     F = SEQ + ".QueryEventFilters"
